@@ -1,3 +1,6 @@
 //! Safe-Rust verification hooks for this module (accessors/wrappers only; no logic).
 #![allow(unused_imports, dead_code)]
 use super::*;
+
+// --- C30 (np_misc_h): the record type lives in a private module; re-export only.
+pub use super::NtsRecord as Record;
